@@ -725,7 +725,8 @@ def readBlock (body : List (Word α)) (offset : Nat) : Option (Nat × List α) :
 /-! ## VTK: the appended section byte by byte
 
 `fp.write(np.uint64(n))` writes the 8 bytes of `n` in the machine's byte order, `fp.write(a.ravel("F"))` the 8
-bytes of every float64 in the machine's byte order; the header names that order (`byte_order`).  The bytes of
+bytes of every float64 in the machine's byte order — also of a field the array stores in the other byte order
+(`.astype(dtype.newbyteorder("="))`, fix 6803b6f); the header names that order (`byte_order`).  The bytes of
 a float64 value are opaque here (`enc`, lowest byte first). -/
 
 /-- the 8 bytes of an unsigned 64-bit number, lowest first -/
